@@ -108,7 +108,9 @@ InvNote(L, k) == <<k, L[k].wid, L[k].n, "Invalidated">>
 \* remove / invalidate: a resident entry is removed, handed back, and the listener is owed
 \* an Invalidated notification (C16).  After the call completed the value must never be
 \* read again (C11, no resurrection), so "not found" is only explainable when nothing was
-\* resident -- or the resident entry was expired and the call dropped it silently.
+\* resident -- or the resident entry was expired and the call dropped it: that is a removal,
+\* so the listener is owed its notification (an entry the expiry cleanup collected earlier is
+\* announced as Expired before the call and is not Present here).
 Remove(L, r, t) ==
   LET k == r.key IN
   IF Present(L, k)
@@ -116,7 +118,7 @@ Remove(L, r, t) ==
             THEN {[L |-> [L EXCEPT ![k] = NoE], inv |-> {InvNote(L, k)}, invopt |-> {}, devs |-> {}]} ELSE {})
          \cup
          (IF ~r.hit /\ PossExp(L[k], t)
-            THEN {[L |-> [L EXCEPT ![k] = NoE], inv |-> {}, invopt |-> {InvNote(L, k)}, devs |-> {}]} ELSE {})
+            THEN {[L |-> [L EXCEPT ![k] = NoE], inv |-> {InvNote(L, k)}, invopt |-> {}, devs |-> {}]} ELSE {})
     ELSE IF ~r.hit THEN {Out(L)} ELSE {}
 
 MultiRemove(L, r, t) ==
